@@ -30,9 +30,14 @@ SEQ_ASSUME = [
 
 REGISTRY = {
     "C01": {"engines": [stress(budget_q=20), stepper(budget_q=6, budget_t=90)], "assumptions": COMMON_ASSUME},
-    "C02": {"engines": [stress()], "assumptions": COMMON_ASSUME},
-    "C03": {"engines": [stress()], "assumptions": COMMON_ASSUME},
-    "C04": {"engines": [stress()], "assumptions": COMMON_ASSUME},
+    "C02": {"engines": [stress(budget_q=18), eng("chan_seq", "vh_channels", budget_q=7, budget_t=120, shards={"quick": 8, "thorough": 16})],
+            "assumptions": COMMON_ASSUME},
+    "C03": {"engines": [stress(budget_q=18), eng("chan_seq", "vh_channels", budget_q=7, budget_t=120, shards={"quick": 8, "thorough": 16})],
+            "assumptions": COMMON_ASSUME},
+    "C04": {"engines": [stress(budget_q=18), eng("spmc_stress", "vh_channels", budget_q=6, budget_t=120, shards={"quick": 8, "thorough": 16}),
+                        eng("topic_check", "vh_channels", budget_q=6, budget_t=120, shards={"quick": 8, "thorough": 16}),
+                        eng("chan_seq", "vh_channels", budget_q=5, budget_t=120, shards={"quick": 8, "thorough": 16})],
+            "assumptions": COMMON_ASSUME},
     "C05": {"engines": [stress()], "assumptions": COMMON_ASSUME + [
         "progress verdicts: a thread counts as stuck only after 3 quiet windows with a healthy scheduler canary, all "
         "unfinished threads inside blocking calls, and either a legal spurious wake releases it or the history model "
@@ -63,4 +68,9 @@ REGISTRY = {
         "the model follows how the cache drives a policy: on_admit on every write, AdmitAndEvict victims leave the model, "
         "evict victims get no on_remove"]},
     "C17": {"engines": [eng("cache_seq", "vh_cache", budget_q=20, budget_t=240)], "assumptions": SEQ_ASSUME},
+    "C08": {"engines": [eng("topic_check", "vh_channels", budget_q=20, budget_t=240)], "assumptions": SEQ_ASSUME + [
+        "a receiver cloned after every sender handle is gone is unspecified by the statement: nothing is asserted about it"]},
+    "C10": {"engines": [eng("lock_stress", "vh_channels", budget_q=20, budget_t=240)], "assumptions": COMMON_ASSUME + [
+        "writer-not-starved is decided logically: readers may complete at most 10^6 further read sections after the writer "
+        "called write(); the writer thread runs without injected delays in that scenario"]},
 }
